@@ -314,7 +314,9 @@ def run(res: C.Result):
         for co in range(n3):
             t = (zeta[co] + 1) / 2
             cand = [i for i, s in enumerate(c["script"]) if s == t]
-            zpos_impl.append(cand[0] if len(cand) == 1 else 99999)
+            # (the same value can occur twice in a script - e.g. two coordinates planned with zeta = 0: any position holding the value explains the observation)
+            want_zp = next((e["zp"] for e in entries if e["verdict"] and e["coord"] == co), None)
+            zpos_impl.append(want_zp if want_zp in cand else (cand[0] if cand else 99999))
         acc = [(e["zp"], e["up"]) for e in entries if e["verdict"]]
         chk_lines.append((k, f"Eval vm_compute in ({k}%nat, chk {n3} [" + "; ".join(f"({a},{b})" for a, b in acc) + "]%nat " +
                           C.natlist(zpos_impl) + f" {r['consumed']}%nat)."))
